@@ -308,6 +308,7 @@ func TestVerifC06API(t *testing.T) {
 	defer log.SetOutput(prevOut)
 
 	dataDir := t.TempDir()
+	hostsDir := t.TempDir()
 	setts := &Settings{ProtectionEnabled: true, FilteringEnabled: true}
 
 	w := &c06Watch{stop: make(chan struct{})}
@@ -319,7 +320,23 @@ func TestVerifC06API(t *testing.T) {
 
 	for hi := 0; hi < nHist; hi++ {
 		modified := 0
-		d, err := New(&Config{DataDir: dataDir, ConfigModified: func() { modified++ }}, nil)
+		// Every fourth history runs on a filter that also has a hosts
+		// container knowing many of the probed names with other addresses.
+		var hostsLines []string
+		liveConf := &Config{DataDir: dataDir, ConfigModified: func() { modified++ }}
+		if hi%4 == 1 {
+			hostsLines = c06HostsLines(rng.Intn, nil, append(append([]string(nil), c06Tree...), c06TargetsOnly...))
+			hc, herr := c06HostsContainer(hostsDir, hostsLines)
+			if herr != nil {
+				rep.Inconcl("hosts container: " + herr.Error())
+
+				return
+			}
+			liveConf.EtcHosts = hc
+			rep.Event("histories_with_hosts_container")
+			defer func() { _ = hc.Close() }()
+		}
+		d, err := New(liveConf, nil)
 		if err != nil {
 			rep.Inconcl("filtering.New failed: " + err.Error())
 
@@ -631,6 +648,23 @@ func TestVerifC06API(t *testing.T) {
 						"table_listed": listed, "query_name": name, "query_type": dns.TypeToString[qt],
 						"live_filter_answered": o, "fresh_filter_from_listed_table_answered": fo, "model": exp,
 					}
+					if hostsLines != nil {
+						q["hosts_file"] = hostsLines
+					}
+					if o.Hosts && !fo.Pass {
+						if !modelBad {
+							modelBad = true
+							rep.Violate("api-hosts-files-override-rewrite-table:"+fo.shape(),
+								fmt.Sprintf("%s %s: the listed table answers %s, but the live filter, whose hosts files also know the name, answered from the hosts files",
+									name, dns.TypeToString[qt], verifkit.JSON(fo)), wit(q))
+						}
+
+						continue
+					} else if o.Hosts {
+						rep.Event("hosts_files_answered_a_name_the_table_passes")
+					} else if hostsLines != nil && !o.Pass {
+						rep.Event("table_answer_with_hosts_container_present")
+					}
 					if bad, why := c06Sound(listed, name, qt, o); bad != "" && !modelBad {
 						modelBad = true
 						rep.Violate("api-unsound-address:"+why+":after-"+c06APIOpKey(op.Class),
@@ -693,6 +727,9 @@ func TestVerifC06API(t *testing.T) {
 		if rep.Events[k] < need[k] {
 			rep.Inconcl(fmt.Sprintf("event %q seen %d times, fewer than %d", k, rep.Events[k], need[k]))
 		}
+	}
+	if rep.Events["table_answer_with_hosts_container_present"] < 1000 {
+		rep.Inconcl("too few table answers observed on filters with a hosts container")
 	}
 	if rep.Events["chain_len_9plus_decided_by_model"] < 50 || rep.Events["chain_len_17plus_decided_by_model"] < 20 ||
 		rep.Events["restarts_through_config_file"] < 1000 {
